@@ -133,6 +133,26 @@ theorem sortIds_isSort : IsSort sortIds := by
   have := sortBy_sorted (fun a b => decide (a ≤ b)) (by intro a b c; simp; omega) (by intro a b; simp; omega) l
   simpa [sortIds] using this
 
+/-- `curateWith` needs its sorter to deliver a sorted permutation ON THE SUCCESS LIST IT IS GIVEN only (this is
+what lets the tie theorem `C17_tie`, whose sorter is "whatever `slices.SortFunc` returned on these ids",
+compose with the specification: `C17_curate_generated` in Tie.lean) -/
+theorem curateWith_eq_at {sort : List Nat → List Nat} (all succ : List Nat) (complete : Bool)
+    (hp : (sort succ).Perm succ) (hs : (sort succ).Pairwise (· ≤ ·)) :
+    curateWith sort all succ complete =
+      (all.filter fun i => !succ.contains i).map fun i => (i, if complete then Msg.notFound else Msg.unavailable) := by
+  unfold curateWith
+  induction all with
+  | nil => rfl
+  | cons a rest ih =>
+    have hf : (binarySearch (sort succ) a).2 = succ.contains a := by
+      have h1 := binarySearch_found hs a
+      have h2 : a ∈ sort succ ↔ a ∈ succ := hp.mem_iff
+      cases hb : (binarySearch (sort succ) a).2 <;> cases hc : succ.contains a <;> simp_all
+    simp only [List.filterMap_cons, List.filter_cons, hf]
+    cases hc : succ.contains a
+    · simp [ih]
+    · simp [ih]
+
 theorem curateWith_eq {sort : List Nat → List Nat} (hsort : IsSort sort) (all succ : List Nat) (complete : Bool) :
     curateWith sort all succ complete =
       (all.filter fun i => !succ.contains i).map fun i => (i, if complete then Msg.notFound else Msg.unavailable) := by
